@@ -412,6 +412,7 @@ func c8Clone(x any, normNaN bool) any {
 
 const c8ExhBase = 10_000_000
 const c8RespBase = 5_000_000
+const c8BadBase = 6_000_000
 
 type c8Run struct {
 	out   *vOut
@@ -1180,7 +1181,7 @@ func TestVerifC08Codec(t *testing.T) {
 	// export-response wrappers: every combination of the partial-success fields, all four signals, canonical document and
 	// every spelling variant (a reader fast path that skips error_message when rejected == 0, or reads the count through a
 	// float, shows here). Case indices from c8RespBase; always run (also in quick).
-	if replay < 0 || (replay >= c8RespBase && replay < c8ExhBase) {
+	if replay < 0 || (replay >= c8RespBase && replay < c8BadBase) {
 		idx := c8RespBase
 		for _, sig := range c8Signals {
 			r := h.roots[sig+"resp"]
@@ -1211,6 +1212,47 @@ func TestVerifC08Codec(t *testing.T) {
 						h.stat("response." + kind)
 						h.end(rej != 0 || msg != "")
 					}
+				}
+			}
+		}
+	}
+	// type-directed malformed JSON: for every field kind with a fixed-length or constrained text encoding, documents in which
+	// exactly one such site is malformed (over-long / short / odd / non-hex / upper-case / empty ids, base64 without padding,
+	// unknown enum names, out-of-range 64/32-bit integers, numbers where strings are expected and vice versa), all four signals
+	// and the request wrappers. The unmarshaler must answer (error or value) — never panic or hang; the model predicts the answer.
+	// Case indices from c8BadBase; always run (also in quick).
+	if replay < 0 || (replay >= c8BadBase && replay < c8ExhBase) {
+		idx := c8BadBase
+		for _, rootName := range []string{"logs", "metrics", "traces", "profiles", "logsreq", "metricsreq", "tracesreq", "profilesreq"} {
+			r := h.roots[rootName]
+			for _, class := range c8BadClasses {
+				for rep := 0; rep < 2; rep++ {
+					c := idx
+					idx++
+					if replay >= 0 && replay != c {
+						continue
+					}
+					rnd := vRand(c)
+					var txt, j, hit string
+					var pf map[string]uint64
+					ok := false
+					for try := 0; try < 12 && !ok; try++ {
+						g := c8NewGen(rnd, false)
+						g.pDefault = 0.1
+						g.budget += 20
+						x := g.root(r.m)
+						txt, j, pf, hit, ok = c8WriteBadJSON(x, class, rnd)
+					}
+					h.begin(c, "badjson", r.name)
+					h.stat("badjson." + class)
+					if !ok {
+						h.stat("badjson.nosite")
+						h.end(false)
+						continue
+					}
+					h.stat("badjson.site." + hit)
+					h.opJdec(r, []byte(txt), j, pf)
+					h.end(true)
 				}
 			}
 		}
